@@ -92,13 +92,13 @@ def ob_add_event(nw: int, b0: bool, b1: bool, b2: bool, q: int, wk: int, evk: in
 @obligation(quick=120, thorough=400, partitions_quick=[f"kind == {k}" for k in range(12)],
             partitions_thorough=[f"kind == {k} and nw == {n}" for k in range(12) for n in (1, 2, 3)],
             what="TickStepResult of every result kind — single records and the combinations real steps produce (collect + failure, consumed wait + "
-                 "new wait, completed collect + failure, collects on two buffers of which one snapshot is stale) — preserves R1/R2 and slot accounting (no slot is started twice by one tick)",
+                 "new wait, completed collect + failure, collects on two buffers of which one or both snapshots are stale) — preserves R1/R2 and slot accounting (no slot is started twice by one tick)",
             bounds={"num_workers": "1..3", "queue": "0..QMAX", "result kinds": 12, "policy": "None/0/delay"})
-def ob_step_result(nw: int, b0: bool, b1: bool, b2: bool, q: int, wid: int, kind: int, pol: int, live: int, snap: int) -> bool:
+def ob_step_result(nw: int, b0: bool, b1: bool, b2: bool, q: int, wid: int, kind: int, pol: int, live: int, snap: int, s2: bool = False) -> bool:
     """
     pre: world_ab_valid(nw, b0, b1, b2, q) and q <= QMAX
     pre: 0 <= wid <= 2 and (b0 if wid == 0 else (b1 if wid == 1 else b2))
-    pre: 0 <= kind <= 11 and 0 <= pol <= 2 and 0 <= snap <= live <= 2
+    pre: 0 <= kind <= 11 and 0 <= pol <= 2 and 0 <= snap <= live <= 2 and (kind >= 10 or not s2)
     post: _
     """
     st = world_ab(nw, b0, b1, b2, q, policy=StubPolicy(pol), buf_live=live, buf_snap=snap,
@@ -131,6 +131,9 @@ def ob_step_result(nw: int, b0: bool, b1: bool, b2: bool, q: int, wid: int, kind
         res = [AddCollectedEvent(event_id="buf", event=EVA), AddCollectedEvent(event_id="buf2", event=EVA)]
     else:
         res = [AddCollectedEvent(event_id="buf2", event=EVA), AddCollectedEvent(event_id="buf", event=EVA)]
+    if kind >= 10 and s2:
+        # the SECOND buffer is stale too (a sibling recorded its event in both buffers since this invocation's snapshot)
+        st.workers["a"].collected_events["buf2"] = [EVB]
     tick = TickStepResult.model_construct(step_name="a", worker_id=wid, event=EVA, result=res)
     st2, cmds = _reduce_tick(tick, st, 1, "r")
     return rep_R1(st2) and rep_R2(st2) and _slot_accounting(st, st2, cmds, ("a", wid))
